@@ -197,6 +197,21 @@ def r02d(model: Model, rr: RuleResult):
     else:
         rr.bad(efi, inner, "renumbering loop does not keep the new glyph order and the recorded glyph ids in step", construct=short(inner, 160))
     ecfg = cfg_of(efi)
+    # every colour glyph is renumbered: the loop runs over all the caller's groups (the .notdef group, fixed at gid 0, aside)
+    outer = [st for st in walk_body(efi) if isinstance(st, ast.For) and inner in st.body]
+    if len(outer) != 1 or not isinstance(outer[0].iter, ast.Name):
+        raise AnalysisError("_ensure_groups_grouped_in_glyph_order: loop over the groups not found")
+    gname = outer[0].iter.id
+    gdefs = ecfg.reaching(ecfg.node_for(outer[0]), gname)
+    odd = [d for d in gdefs if not (d.kind == "param" or (d.kind in ("unpack", "assign") and d.stmt is not None and isinstance(d.stmt, ast.Assign)
+                                                         and any(isinstance(e, ast.Starred) for t in d.stmt.targets if isinstance(t, (ast.Tuple, ast.List)) for e in t.elts)
+                                                         and norm(d.stmt.value) == gname))]
+    if gdefs and not odd:
+        rr.ok(f"the renumbering loop runs over every group the caller passed ({gname}; the leading .notdef group is split off)")
+    else:
+        rr.bad(efi, odd[0].stmt if odd and odd[0].stmt is not None else outer[0], f"the groups that are renumbered are a filtered/rebuilt subset of the caller's groups "
+               f"({[short(d.stmt) if d.stmt is not None else d.kind for d in odd]}): glyphs left out move to another glyph id when the others are appended behind them, "
+               f"but keep the stale ColorGlyph.glyph_id their document is emitted under", construct=f"_ensure_groups_grouped_in_glyph_order: {gname} redefined before the renumbering loop")
     init = [d for d in ecfg.all_defs("gid") if d.kind == "assign"]
     if len(init) == 1 and norm(init[0].value) == "len(glyph_order)":
         rr.ok("numbering starts after the glyphs that are not moved")
@@ -270,3 +285,43 @@ def r02e(model: Model, rr: RuleResult):
         rr.ok("picosvg glyph group id = glyph<ID>")
     else:
         rr.bad(afi, afi.node, "glyph group id is not glyph<ID>", construct="_add_glyph: id")
+
+
+ROOT_ATTRS_REMOVABLE = {"width", "height", "viewBox", "enable-background"}
+
+
+@RULES.rule("C02", "R02f", "untouched SVG: only width/height/viewBox/enable-background are taken off the root element", floor=2)
+def r02f(model: Model, rr: RuleResult):
+    fi = model.func("svg", "_rawsvg_docs")
+    for c in calls_in(fi, nested=True):
+        if callee_tail(c) == "remove_attributes":
+            a = c.args[0] if c.args else None
+            if not isinstance(a, (ast.Tuple, ast.List)) or not all(isinstance(e, ast.Constant) for e in a.elts):
+                raise AnalysisError(f"_rawsvg_docs: remove_attributes argument {short(a)} is not a literal tuple")
+            extra = {e.value for e in a.elts} - ROOT_ATTRS_REMOVABLE
+            if extra:
+                rr.bad(fi, c, f"remove_attributes drops {sorted(extra)} from the source's root element: inherited presentation (fill, fill-rule, style) is lost for every "
+                       f"shape that relied on it", construct=f"_rawsvg_docs: remove_attributes {sorted(extra)}")
+            else:
+                rr.ok(f"{short(c, 70)}: geometry/compat attributes only")
+    dels = []
+    for st in walk_body(fi, nested=True):
+        if isinstance(st, ast.Delete):
+            dels += [t for t in st.targets if "attrib" in norm(t)]
+        if isinstance(st, ast.Call) and callee_tail(st) in ("pop", "clear", "popitem") and "attrib" in norm(st.func):
+            dels.append(st)
+        if isinstance(st, ast.Call) and callee_tail(st) in ("strip_attributes", "cleanup_namespaces", "strip_elements", "strip_tags"):
+            dels.append(st)
+    for d in dels:
+        key = None
+        if isinstance(d, ast.Subscript) and isinstance(d.slice, ast.Constant):
+            key = d.slice.value
+        if isinstance(d, ast.Call) and d.args and isinstance(d.args[0], ast.Constant):
+            key = d.args[0].value
+        if key in ROOT_ATTRS_REMOVABLE:
+            rr.ok(f"{short(d)}: removable attribute")
+        else:
+            rr.bad(fi, d, f"`{short(d, 70)}` deletes {'attribute ' + repr(key) if key else 'attributes'} of the untouched source: an 'untouched' glyph must keep everything that affects "
+                   f"painting (a root style may carry fill / fill-rule next to enable-background)", construct=f"_rawsvg_docs: {short(d, 60)}")
+    if not dels:
+        rr.ok("no attribute of the source document is deleted besides the remove_attributes calls")
